@@ -205,7 +205,7 @@ impl DwarfRegistry {
     fn find_range(&self, addr: RelocatedAddress) -> Option<&(PathBuf, RegionRange)> {
         self.ranges
             .binary_search_by(|(_, range)| {
-                if addr >= range.from && addr <= range.to {
+                if addr >= range.from && addr < range.to {
                     Ordering::Equal
                 } else if range.from > addr {
                     Ordering::Greater
